@@ -98,7 +98,7 @@ def features(t):
 
 def ser_values(r, t, n, storage=True):
     """Values to serialize: boundary-biased, in the storage range of C/C++ when storage=True, plus the maximal value."""
-    vals = [("max", M.max_value(t))]
+    vals = [("max", M.max_value(t)), ("min", M.min_value(t, 0)), ("min", M.min_value(t, 1))]
     for k in range(n):
         if storage:
             vals.append(("rand", M.gen_value(r, t, in_range=not (k % 2), maxlen=r.choice([2, 6, 40]))))
